@@ -40,12 +40,12 @@ META = {
 
 
 def run(rep):
-    nonmutation(rep)
-    node_glue(rep)
-    bond_glue(rep)
-    parity(rep)
-    schema(rep)
-    wiring(rep)
+    rep.run(nonmutation)
+    rep.run(node_glue)
+    rep.run(bond_glue)
+    rep.run(parity)
+    rep.run(schema)
+    rep.run(wiring)
 
 
 # ------------------------------------------------------------------ O3.1
